@@ -32,6 +32,8 @@ TRUSTED_EXTRA = ['Python 3.12 shlex is MODELLED (Model/Tok.v lex_go), not assume
                  'through TokenStream on every run']
 
 KF1 = 'KF-C09-1'
+KF3 = 'KF-C09-3'
+KF4 = 'KF-C09-4'
 
 EXOTIC = '\x0b\x0c\x1c\x1d\x1e\x1f\x85\xa0\u1680\u2000\u2003\u200a\u2028\u2029\u202f\u205f\u3000'
 SHLEX_WS = ' \t\r\n'
@@ -436,6 +438,29 @@ class Impl:
         except Exception as ex:
             return ('raise', type(ex).__name__)
 
+    def script(self, src, ops, env):
+        """a sequence of operations on ONE stream: ([('tok', head or None) | ('str', fragments, resolved)], exception name or None)"""
+        obs = []
+        self.sticky_at = None
+        try:
+            ts = self.TokenStream(src)
+            tp = self.TokenParser(ts)
+            symbols = self.mk_symbols(env)
+            for k, op in enumerate(ops):
+                if self.sticky_at is None and ts._lexer.state is None and ts.head is None and \
+                        ts.look_ahead_state.name == 'NULL' and ts.remaining_source.strip(' \t\r\n'):
+                    self.sticky_at = k      # KF-C09-3: the lexer is "past end of file" although unread source remains
+                if op == 'tok':
+                    h = ts.head
+                    ts.consume()
+                    obs.append(('tok', None if h is None else (h.type.name, h.string, h.source_string)))
+                else:
+                    sdv = self.parse_string.parse_string_sdv(ts) if op == 'string' else self.rich_parser.parse_from_token_parser(tp)
+                    obs.append(('str', self._frags(sdv), sdv.resolve(symbols).value_when_no_dir_dependencies()))
+            return obs, None
+        except Exception as ex:
+            return obs, type(ex).__name__
+
     def split(self, s):
         return [('sym', f.value) if f.is_symbol else ('const', f.value) for f in self.symbol_syntax.split(s)]
 
@@ -453,6 +478,7 @@ class E2E:
 
     def __init__(self, root):
         self.root = root
+        self.im = Impl()
         self.mp = impl.main_program(root)
         self.head = ('[setup]\n' + ''.join("def string %s = '%s'\n" % (k, v) for k, v in E2E_STR) +
                      ''.join('def list %s = %s\n' % (k, ' '.join("'%s'" % x for x in v)) for k, v in LISTS))
@@ -461,18 +487,55 @@ class E2E:
         with open(self.probe, 'w') as f:
             f.write('import sys, json\nsys.stdout.write(json.dumps(sys.argv[1:]))\n')
 
-    def run_args(self, args_src):
+    def run_dir(self, dir_src, n_files):
+        """`dir d = { file a0 = ... }` + a following instruction: contents of d/a0.. | syntax error | other"""
+        d = tempfile.mkdtemp(prefix='case-', dir=self.root)
+        with open(os.path.join(d, 't.case'), 'w', encoding='utf-8', newline='') as f:
+            f.write(self.head + 'dir ' + dir_src)
+        r = impl.run_main(self.mp, ['--keep', 't.case'], d, d)
+        try:
+            if r.exception is not None:
+                return ('other', 'exception ' + type(r.exception).__name__)
+            if r.exit_code == 0 and r.out.strip():
+                sds = r.out.strip().splitlines()[0]
+                try:
+                    contents = []
+                    for i in range(n_files):
+                        with open(os.path.join(sds, 'act', 'd', 'a%d' % i), encoding='utf-8', newline='') as f:
+                            contents.append(f.read())
+                    extra = sorted(os.listdir(os.path.join(sds, 'act', 'd')))
+                    gp = os.path.join(sds, 'act', 'g.txt')
+                    g_ok = os.path.isfile(gp) and open(gp).read() == 'mark' and extra == sorted('a%d' % i for i in range(n_files))
+                    return ('files', contents, g_ok)
+                except OSError as ex:
+                    return ('other', 'missing file: ' + str(ex)[-60:])
+                finally:
+                    if os.path.dirname(os.path.abspath(sds)) == os.path.abspath(self.root):
+                        shutil.rmtree(sds, ignore_errors=True)
+            first = (r.err.splitlines() or [''])[0]
+            if first == 'SYNTAX_ERROR':
+                return ('syntax', ('t.case, line %d\n' % self.line) in r.err)
+            return ('other', first)
+        finally:
+            shutil.rmtree(d, ignore_errors=True)
+
+    def run_args(self, args_src, via_list=False):
         """argv received by the probe program from `% python probe.py ARG...` in [act] | syntax error | other"""
         import json as _json
         d = tempfile.mkdtemp(prefix='case-', dir=self.root)
         with open(os.path.join(d, 't.case'), 'w', encoding='utf-8', newline='') as f:
-            f.write(self.head + '[act]\n% /venv/bin/python ' + self.probe + args_src + '\n')
+            if via_list:
+                f.write(self.head + 'def list Z =' + args_src + '\n[act]\n% /venv/bin/python ' + self.probe + ' @[Z]@\n')
+            else:
+                f.write(self.head + '[act]\n% /venv/bin/python ' + self.probe + args_src + '\n')
         r = impl.run_main(self.mp, ['--act', 't.case'], d, d)
         try:
             if r.exception is not None:
                 return ('other', 'exception ' + type(r.exception).__name__)
             first = (r.err.splitlines() or [''])[0]
             if first == 'SYNTAX_ERROR':
+                if via_list:
+                    return ('syntax', ('t.case, line %d\n' % self.line) in r.err)
                 # the act phase is parsed by the actor: the report names the phase and shows the source line, no line number
                 return ('syntax', 'In [act]\n' in r.err and ('% /venv/bin/python ' + self.probe) in r.err)
             try:
@@ -579,20 +642,21 @@ def gen_args(rng, e2e=False):
     return ([('tok', [('N', 'a')], '')], None, None)
 
 
-def args_e2e_case(e2e, l):
+def args_e2e_case(e2e, l, ut=None, via_list=False):
+    """argv of the probe program from `% probe ARGS` (via_list: from `def list Z = ARGS` + `% probe @[Z]@`)"""
     lead = ' '
-    src = lead + render_list(l)
-    obs = e2e.run_args(src)
+    src = lead + render_list(l) + render_unterm(ut)
+    obs = e2e.run_args(src, via_list)
     if obs[0] == 'argv':
         co = '(AObs %s)' % c_list([ctext(x) for x in obs[1]], 'text')
     elif obs[0] == 'syntax':
         co = '(ASyntax %s)' % cbool(obs[1])
     else:
         co = 'AOther'
-    term = '(CArgs %s %s %s %s (%s, %s) %s)' % (c_oracle(src + env_chars(E2E_ENV)), c_env(E2E_ENV), c_lsyms(), ctext(src),
-                                               ctext(lead), c_slist(l), co)
-    return term, {'kind': 'args-e2e', 'source': src, 'structure': (lead, l), 'observed': obs, 'symbols': E2E_ENV,
-                  'list_symbols': LISTS, 'case_file': e2e.head + '[act]\n% /venv/bin/python PROBE' + src + '\n'}
+    term = '(CArgs %s %s %s %s %s (%s, %s, %s) %s)' % (cbool(via_list), c_oracle(src + env_chars(E2E_ENV)), c_env(E2E_ENV), c_lsyms(),
+                                                      ctext(src), ctext(lead), c_slist(l), c_unterm(ut), co)
+    return term, {'kind': 'args-e2e', 'source': src, 'structure': (lead, l, ut), 'observed': obs, 'symbols': E2E_ENV,
+                  'list_symbols': LISTS, 'via': 'def list Z = ... ; % probe @[Z]@' if via_list else '% probe ...'}
 
 
 def e2e_case(e2e, st):
@@ -609,6 +673,176 @@ def e2e_case(e2e, st):
                                                           ctext(FILE_ARG_PREFIX), c_rich(st), co)
     return term, {'kind': 'parse-file', 'source': src, 'structure': (FILE_ARG_PREFIX, st), 'observed': obs, 'symbols': E2E_ENV,
                   'case_file': e2e.head + 'file ' + src}
+
+
+# ---------------------------------------------------------------------------------------------
+# several strings in one stream: segments
+# ---------------------------------------------------------------------------------------------
+LONE_QUOTE_TEXTS = ["it's", "don't", '"x', "it's @[X]@ y", "'", 'a" b', "can't 'q", "o'clock @[L]@"]
+
+
+def gen_raw_text(rng):
+    """the TEXT after :> / a here-document line: often begins with a word that contains a lone quote"""
+    if rng.chance(0.4):
+        return rng.choice(LONE_QUOTE_TEXTS)
+    return gen_text(rng, 'T')
+
+
+def fix_string_token(t, as_rich):
+    if render_tok(t) in RESERVED or (all(k == 'N' for k, _ in t) and chars_tok(t) in RESERVED):
+        t = [('S', chars_tok(t))]
+    if as_rich and (render_tok(t).startswith('<<') or (t[0][0] == 'N' and chars_tok(t) == ':>')):
+        t = [('H', '')] + t
+    return t
+
+
+def gen_segs(rng):
+    n = rng.randint(2, 6)
+    segs = []
+    for i in range(n):
+        more = i < n - 1
+        r = rng.below(100)
+        sep = rng.choice(SEPS) if (more or rng.chance(0.5)) else ''
+        if r < 30:
+            segs.append(('tok', gen_token(rng, allow_nl=rng.chance(0.2)), sep))
+        elif r < 55:
+            as_rich = rng.chance(0.5)
+            segs.append(('str', as_rich, fix_string_token(gen_token(rng, allow_nl=rng.chance(0.2)), as_rich), sep))
+        elif r < 80:
+            txt = gen_raw_text(rng) if rng.chance(0.9) else ''
+            gap = rng.choice(SEPS_LINE) if (txt or rng.chance(0.5)) else ''
+            nxt = rng.choice(['', ' ', '  ', '\t', '\n ']) if (more or rng.chance(0.5)) else None
+            segs.append(('eol', gap, txt, nxt))
+        else:
+            marker = rng.choice(MARKERS)
+            lines = [l for l in (gen_raw_text(rng) if rng.chance(0.7) else rng.choice(['', ' ', marker + ' ', '# c', '[setup]'])
+                                 for _ in range(rng.randint(0, 3))) if l != marker]
+            nxt = rng.choice(['', ' ', '  ', '\n']) if (more or rng.chance(0.5)) else None
+            segs.append(('here', marker, rng.choice(['', ' ']), lines, nxt))
+    ut = gen_unterm(rng) if rng.chance(0.1) else None
+    if ut is not None:
+        g = segs[-1]
+        if g[0] in ('tok', 'str') and not g[-1]:
+            segs[-1] = g[:-1] + (' ',)
+        elif g[0] in ('eol', 'here') and g[-1] is None:
+            segs[-1] = g[:-1] + (' ',)
+    return segs, ut
+
+
+def render_seg(g):
+    if g[0] == 'tok':
+        return render_tok(g[1]) + g[2]
+    if g[0] == 'str':
+        return render_tok(g[2]) + g[3]
+    if g[0] == 'eol':
+        return ':>' + g[1] + g[2] + render_after(g[3])
+    return '<<' + g[1] + g[2] + '\n' + ''.join(l + '\n' for l in g[3]) + g[1] + render_after(g[4])
+
+
+def render_segs(segs):
+    return ''.join(render_seg(g) for g in segs)
+
+
+def c_seg(g):
+    if g[0] == 'tok':
+        return '(GTok %s %s)' % (c_tok(g[1]), ctext(g[2]))
+    if g[0] == 'str':
+        return '(GStr %s %s %s)' % (cbool(g[1]), c_tok(g[2]), ctext(g[3]))
+    if g[0] == 'eol':
+        return '(GEol %s %s %s)' % (ctext(g[1]), ctext(g[2]), c_otext(g[3]))
+    return '(GHere %s %s %s %s)' % (ctext(g[1]), ctext(g[2]), c_list([ctext(l) for l in g[3]], 'text'), c_otext(g[4]))
+
+
+def seg_op(g):
+    return 'tok' if g[0] == 'tok' else ('string' if (g[0] == 'str' and not g[1]) else 'rich')
+
+
+def seg_texts(segs):
+    out = []
+    for g in segs:
+        if g[0] == 'str':
+            out.append(chars_tok(g[2]))
+    return out
+
+
+def c_core(h):
+    return 'None' if h is None else '(Some (%s, %s, %s))' % (cbool(h[0] == 'QUOTED'), ctext(h[1]), ctext(h[2]))
+
+
+def script_case(im, lead, segs, ut):
+    src = lead + render_segs(segs) + render_unterm(ut)
+    env = env_for([src] + seg_texts(segs))
+    obs, exn = im.script(src, [seg_op(g) for g in segs] + (['string'] if ut is not None else []), env)
+    sticky_at = im.sticky_at
+    co = c_list(['(SoTok %s)' % c_core(o[1]) if o[0] == 'tok' else '(SoStr %s %s)' % (c_fragments(o[1]), ctext(o[2])) for o in obs], 'sobs')
+    ce = 'None' if exn is None else '(Some %s)' % c_exn(exn)
+    term = '(CScript %s %s %s (%s, %s, %s) %s %s)' % (c_oracle(src + env_chars(env)), c_env(env), ctext(src), ctext(lead),
+                                                     c_list([c_seg(g) for g in segs], 'sseg'), c_unterm(ut), co, ce)
+    return term, {'kind': 'script', 'source': src, 'structure': (lead, segs, ut), 'observed': (obs, exn), 'symbols': env,
+                  'lexer_past_eof_before_op': sticky_at}
+
+
+def gen_dir(rng):
+    """dir d = { file a0 = RICH NL file a1 = RICH NL ... } NL file g.txt = 'mark' NL   (or an unterminated quote in the last entry)"""
+    known = {k for k, _ in E2E_ENV}
+    for _ in range(300):
+        segs = [('tok', [('N', 'd')], ' '), ('tok', [('N', '=')], ' '), ('tok', [('N', '{')], rng.choice(['\n', '\n  ', ' \n\t']))]
+        n = rng.randint(1, 4)
+        ut = gen_unterm(rng) if rng.chance(0.1) else None
+        for i in range(n):
+            segs += [('tok', [('N', 'file')], ' '), ('str', False, [('N', 'a%d' % i)], ' '), ('tok', [('N', '=')], ' ')]
+            last_ut = ut is not None and i == n - 1
+            if last_ut:
+                break
+            r = rng.below(100)
+            ind = '\n' + rng.choice(['', ' ', '  '])
+            if r < 35:
+                t = gen_token(rng, allow_nl=False)
+                if render_tok(t)[0] in '-(':
+                    t = [('H', '')] + t
+                t = fix_string_token(t, True)
+                if first_char_splice(t) is not None:
+                    t = [('S', chars_tok(t))]
+                segs.append(('str', True, t, rng.choice(['', ' ']) + ind))
+            elif r < 70:
+                txt = gen_raw_text(rng)
+                segs.append(('eol', rng.choice(SEPS_LINE), txt, ind[1:]))
+            else:
+                marker = rng.choice(MARKERS)
+                lines = [l for l in (gen_raw_text(rng) for _ in range(rng.randint(0, 3))) if l != marker]
+                segs.append(('here', marker, rng.choice(['', ' ']), lines, ind[1:]))
+        if ut is None:
+            segs += [('tok', [('N', '}')], '\n')] + [('tok', t, sp) for t, sp in E2E_NEXT_ITEMS]
+        src = render_segs(segs) + render_unterm(ut)
+        if '\r' in src:
+            continue
+        texts = [src] + seg_texts(segs)
+        if any(k not in known for k, _ in env_for(texts)[len(ENV):]) or '@[é]@' in ''.join(texts):
+            continue
+        return segs, ut
+    return [('tok', [('N', 'd')], ' '), ('tok', [('N', '=')], ' '), ('tok', [('N', '{')], '\n'), ('tok', [('N', '}')], '')], None
+
+
+def dir_e2e_case(e2e, segs, ut):
+    src = render_segs(segs) + render_unterm(ut)
+    n_files = sum(1 for g in segs if g[0] == 'str' and not g[1]) - (1 if ut is not None else 0)
+    obs = e2e.run_dir(src, n_files)
+    if obs[0] == 'files':
+        co = '(EFiles %s %s)' % (c_list([ctext(x) for x in obs[1]], 'text'), cbool(obs[2]))
+    elif obs[0] == 'syntax':
+        co = '(ESyntax %s)' % cbool(obs[1])
+    else:
+        co = 'EOther'
+    term = '(CScriptE2E %s %s %s (%s, %s, %s) %s)' % (c_oracle(src + env_chars(E2E_ENV)), c_env(E2E_ENV), ctext(src), ctext(''),
+                                                     c_list([c_seg(g) for g in segs], 'sseg'), c_unterm(ut), co)
+    info = {'kind': 'dir-e2e', 'source': 'dir ' + src, 'structure': ('', segs, ut), 'observed': obs, 'symbols': E2E_ENV}
+    if obs[0] != 'files':
+        # the same text through the parsers on one stream, to see WHERE it deviates (used for known-finding predicates only)
+        im = e2e.im
+        pobs, pexn = im.script(src, [seg_op(g) for g in segs] + (['string'] if ut is not None else []), E2E_ENV)
+        info['parser_level'] = (pobs, pexn)
+        info['lexer_past_eof_before_op'] = im.sticky_at
+    return term, info
 
 
 # ---------------------------------------------------------------------------------------------
@@ -660,26 +894,48 @@ def splice_of(t):
     return None
 
 
+def doc_value(t, env_d):
+    """harness-side copy of the documented value of a string token (reading A: hard-quoted characters literal, the rest
+    joined across fragments and substituted); used ONLY to decide whether a failure is fully explained by the known finding"""
+    out, cur = [], ''
+    for k, x in t:
+        if k == 'H':
+            out.append(py_subst(cur, env_d))
+            cur = ''
+            out.append(x)
+        else:
+            cur += x
+    out.append(py_subst(cur, env_d))
+    return ''.join(out)
+
+
 def kf1_applies(tokens, resolved, env):
-    """KF-C09-1: some token mixes hard-quoted and other fragments and its observed value is exactly what the
-    first-character rule gives (elements are aligned with the written tokens; a spliced list takes its own elements)"""
+    """KF-C09-1 explains the failure: every written token has its documented value, except tokens with fragments of at least
+    two quoting kinds whose observed value is exactly what the first-character rule gives (at least one such token); elements
+    are aligned with the written tokens (a wholly naked reference to a list symbol takes the list's elements)"""
     hit = False
     env_d = dict(env)
     i = 0
     for t in tokens:
         sp = splice_of(t)
         if sp is not None:
+            if resolved[i:i + len(sp)] != sp:
+                return False
             i += len(sp)
             continue
         fs = first_char_splice(t) if is_mixed(t) else None
-        if fs is not None and resolved[i:i + len(fs)] == fs:
+        if fs is not None and resolved[i:i + len(fs)] == fs and not (len(fs) == 1 and fs[0] == doc_value(t, env_d)):
             hit = True
             i += len(fs)
             continue
         if i >= len(resolved):
             return False
-        if is_mixed(t) and resolved[i] == first_char_rule(t, env_d):
+        if resolved[i] == doc_value(t, env_d):
+            pass
+        elif is_mixed(t) and resolved[i] == first_char_rule(t, env_d):
             hit = True
+        else:
+            return False
         i += 1
     return hit and i == len(resolved)
 
@@ -774,7 +1030,20 @@ def parse_case(im, kind, src, st):
     return term, {'kind': 'parse-' + kind, 'source': src, 'structure': st, 'observed': obs, 'symbols': env}
 
 
+def with_unterm(rng, l, p=0.1):
+    """(list structure, unterminated quote after it or None): an unterminated quote can only follow a list that is not
+    stopped by a parenthesis and not followed by a new-line"""
+    if not rng.chance(p):
+        return l, None
+    items = list(l[0])
+    if items and items[-1][0] == 'tok' and not items[-1][2]:
+        items[-1] = ('tok', items[-1][1], ' ')
+    return (items, None, None), gen_unterm(rng)
+
+
 def list_case(im, src, st, is_args=False):
+    if st is not None and len(st) == 2:
+        st = (st[0], st[1], None)
     env = env_for([src] + ([chars_tok(i[1]) for i in st[1][0] if i[0] == 'tok'] if st is not None else []))
     obs = im.list(src, env, is_args)
     if obs[0] == 'ok':
@@ -782,7 +1051,7 @@ def list_case(im, src, st, is_args=False):
         co = '(LObs %s %s %s)' % (c_list(els, 'element'), c_list([ctext(x) for x in obs[2]], 'text'), cnat(obs[3]))
     else:
         co = '(LExn %s)' % c_exn(obs[1])
-    cs = 'None' if st is None else '(Some (%s, %s))' % (ctext(st[0]), c_slist(st[1]))
+    cs = 'None' if st is None else '(Some (%s, %s, %s))' % (ctext(st[0]), c_slist(st[1]), c_unterm(st[2]))
     term = '(CList %s %s %s %s %s %s %s)' % (cbool(is_args), c_oracle(src + env_chars(env)), c_env(env), c_lsyms(), ctext(src), cs, co)
     return term, {'kind': 'args' if is_args else 'list', 'source': src, 'structure': st, 'observed': obs, 'symbols': env,
                   'list_symbols': LISTS}
@@ -809,6 +1078,59 @@ def finding_of(info):
     if k in ('list', 'args'):
         toks = [i[1] for i in st[1][0] if i[0] == 'tok']
         return KF1 if kf1_applies(toks, obs[2], info['symbols']) else None
+    if k in ('script', 'dir-e2e') and obs is not None:
+        segs, ut = st[1], st[2]
+        env_d = dict(info['symbols'])
+        if k == 'script':
+            pobs, pexn = obs
+        elif obs[0] == 'files':
+            if not obs[2]:
+                return None
+            rich = [g for g in segs if g[0] in ('eol', 'here') or (g[0] == 'str' and g[1])]
+            if ut is not None or len(rich) != len(obs[1]):
+                return None
+            for g, v in zip(rich, obs[1]):
+                if g[0] == 'eol' and v != py_subst(g[2].strip(), env_d):
+                    return None
+                if g[0] == 'here' and v != py_subst(''.join(l + '\n' for l in g[3]), env_d):
+                    return None
+            strs = [(g[2], v) for g, v in zip(rich, obs[1]) if g[0] == 'str']
+            return KF1 if strs and kf1_applies([t for t, _ in strs], [v for _, v in strs], info['symbols']) else None
+        elif obs[0] == 'syntax' and 'parser_level' in info:
+            pobs, pexn = info['parser_level']
+        else:
+            return None
+
+        def doc_ok(g, o, allow_kf1):
+            if g[0] == 'tok':
+                return o[0] == 'tok' and o[1] is not None and (o[1][1], o[1][2]) == (chars_tok(g[1]), render_tok(g[1]))
+            if o[0] != 'str':
+                return False
+            if g[0] == 'eol':
+                return o[2] == py_subst(g[2].strip(), env_d)
+            if g[0] == 'here':
+                return o[2] == py_subst(''.join(l + '\n' for l in g[3]), env_d)
+            return o[2] == doc_value(g[2], env_d) or (allow_kf1 and is_mixed(g[2]) and o[2] == first_char_rule(g[2], env_d))
+
+        # the first operation whose result is not the documented one
+        n_ok = 0
+        for g, o in zip(segs, pobs):
+            if not doc_ok(g, o, False):
+                break
+            n_ok += 1
+        if n_ok < len(segs):
+            sticky = info.get('lexer_past_eof_before_op')
+            if sticky is not None and sticky <= n_ok:
+                return KF3
+            if n_ok >= 1 and segs[n_ok - 1][0] == 'eol':
+                txt = segs[n_ok - 1][2]
+                if txt and not txt.strip() and any(c not in SHLEX_WS for c in txt):
+                    return KF4
+        if k == 'script' and ut is None and pexn is None and len(pobs) == len(segs) and all(doc_ok(g, o, True) for g, o in zip(segs, pobs)):
+            return KF1 if any(not doc_ok(g, o, False) for g, o in zip(segs, pobs)) else None
+        if k == 'script' and ut is not None and pexn is not None and len(pobs) == len(segs) and all(doc_ok(g, o, True) for g, o in zip(segs, pobs)):
+            return KF1 if any(not doc_ok(g, o, False) for g, o in zip(segs, pobs)) else None
+        return None
     if k == 'args-e2e':
         toks = [i[1] for i in st[1][0] if i[0] == 'tok']
         return KF1 if obs[0] == 'argv' and kf1_applies(toks, obs[1], info['symbols']) else None
@@ -852,6 +1174,37 @@ CORPUS_ARGS = [
     ([_arg('N', 'a'), _arg('N', '\\'), _arg('N', 'b'), _arg('H', 'c d', '')], None, None),
     ([_arg('N', 'a#b'), _arg('N', '#'), _arg('N', '-x', '')], None, None),
 ]
+def _t(kind, text):
+    return [(kind, text)]
+
+
+# an unterminated quote where tokens are consumed in a loop (seeded C09-m5)
+CORPUS_ARGS_UT = [
+    (([_arg('N', 'a')], None, None), ([], "'", 'b')),
+    (([], None, None), ([], '"', 'a b')),
+    (([_arg('N', 'a'), _arg('N', 'b')], None, None), ([('N', 'x')], "'", '')),
+]
+_D_OPEN = [('tok', _t('N', 'd'), ' '), ('tok', _t('N', '='), ' '), ('tok', _t('N', '{'), '\n  ')]
+_D_CLOSE = [('tok', _t('N', '}'), '\n')] + [('tok', t, sp) for t, sp in E2E_NEXT_ITEMS]
+
+
+def _entry(i, g):
+    return [('tok', _t('N', 'file'), ' '), ('str', False, _t('N', 'a%d' % i), ' '), ('tok', _t('N', '='), ' '), g]
+
+
+# tokens AFTER raw text with a lone quote in its first word, in the same stream (seeded C09-m6)
+CORPUS_DIR = [
+    (_D_OPEN + _entry(0, ('eol', ' ', "it's", '  ')) + _entry(1, ('str', True, _t('N', 'hello'), '\n')) + _D_CLOSE, None),
+    (_D_OPEN + _entry(0, ('here', 'EOF', '', ["it's", 'don"t'], '  ')) + _entry(1, ('eol', ' ', 'x @[X]@', '')) + _D_CLOSE, None),
+    (_D_OPEN + _entry(0, ('str', True, _t('S', '@[L]@'), '\n  ')) + _entry(1, None)[:3], ([], "'", 'abc')),
+]
+CORPUS_SCRIPT = [
+    ('', [('tok', _t('N', 'file'), ' '), ('str', False, _t('N', 'a'), ' '), ('tok', _t('N', '='), ' '), ('eol', ' ', "it's", '  '),
+          ('tok', _t('N', 'file'), ' '), ('str', False, _t('N', 'b'), ' '), ('tok', _t('N', '='), ' '), ('str', True, _t('N', 'hello'), '\n'),
+          ('tok', _t('N', '}'), '')], None),
+    ('', [('here', 'EOF', '', ["don't", '"'], ' '), ('tok', _t('N', '-stdin'), ' '), ('eol', ' ', "'", ''), ('str', True, _t('S', 'a b'), '')], None),
+    (' ', [('tok', _t('N', 'a'), ' '), ('eol', ' ', 'x', '')], ([], "'", 'b')),
+]
 CORPUS_E2E = [
     ('plain', [([('S', '@[L]@')], '\n')] + E2E_NEXT_ITEMS, None),                                  # seeded C09-m4: one string
     ('plain', [([('S', 'a @[L]@ b@[NIL]@')], '\n')] + E2E_NEXT_ITEMS, None),
@@ -868,8 +1221,8 @@ CORPUS_E2E = [
 def run(ctx, res):
     rng = ctx.rng
     q = ctx.quick
-    n_tok, n_soup, n_str, n_rich, n_list, n_split, n_psoup, n_e2e = ((1500, 800, 800, 2000, 1200, 800, 500, 200) if q else
-                                                                     (15000, 8000, 8000, 20000, 12000, 8000, 5000, 2500))
+    n_tok, n_soup, n_str, n_rich, n_list, n_split, n_psoup, n_e2e, n_script = (
+        (1500, 800, 800, 2000, 1200, 800, 500, 200, 1200) if q else (15000, 8000, 8000, 20000, 12000, 8000, 5000, 2500, 12000))
     im = Impl()
     cases = []  # (term, info, nontrivial-key or None)
 
@@ -916,22 +1269,37 @@ def run(ctx, res):
     for j in range(len(CORPUS_LIST) + n_list):
         if j < len(CORPUS_LIST):
             lead, l = CORPUS_LIST[j]
+            ut = None
         else:
             lead = rng.choice(['', '', ' ', '\t '])
-            l = gen_list(rng)
-        src = lead + render_list(l)
-        nt = len(l[0]) >= 2
-        add(list_case(im, src, (lead, l)), ('list', src) if nt else None)
+            l, ut = with_unterm(rng, gen_list(rng))
+        src = lead + render_list(l) + render_unterm(ut)
+        nt = len(l[0]) >= 2 or ut is not None
+        add(list_case(im, src, (lead, l, ut)), ('list', src) if nt else None)
+        if ut is not None:
+            res.count('list: unterminated quote')
     for _ in range(n_psoup // 2):
         add(list_case(im, gen_soup(rng), None), None)
     # program arguments at parser level
     for j in range(len(CORPUS_ARGS) + n_list // 2):
         if j < len(CORPUS_ARGS):
-            lead, l = ' ', CORPUS_ARGS[j]
+            lead, l, ut = ' ', CORPUS_ARGS[j], None
+        elif j < len(CORPUS_ARGS) + len(CORPUS_ARGS_UT):
+            lead, (l, ut) = ' ', CORPUS_ARGS_UT[j - len(CORPUS_ARGS)]
         else:
-            lead, l = rng.choice(['', ' ', '\t ']), gen_args(rng)
-        src = lead + render_list(l)
-        add(list_case(im, src, (lead, l), is_args=True), ('args', src) if len(l[0]) >= 2 else None)
+            lead = rng.choice(['', ' ', '\t '])
+            l, ut = with_unterm(rng, gen_args(rng))
+        src = lead + render_list(l) + render_unterm(ut)
+        add(list_case(im, src, (lead, l, ut), is_args=True), ('args', src) if (len(l[0]) >= 2 or ut is not None) else None)
+    # several strings / tokens in one stream
+    for j in range(len(CORPUS_SCRIPT) + n_script):
+        if j < len(CORPUS_SCRIPT):
+            lead, segs, ut = CORPUS_SCRIPT[j]
+        else:
+            lead = rng.choice(['', ' ', '\n'])
+            segs, ut = gen_segs(rng)
+        add(script_case(im, lead, segs, ut), ('script', lead + render_segs(segs) + render_unterm(ut)))
+        res.count('script: segments %d' % len(segs))
     # split
     for _ in range(n_split):
         s = ''.join(rng.choice(REFP if rng.chance(0.6) else WORDS + [' ']) for _ in range(rng.randint(0, 6)))
@@ -944,10 +1312,22 @@ def run(ctx, res):
         for st in CORPUS_E2E + [gen_e2e(rng) for _ in range(n_e2e)]:
             add(e2e_case(e2e, st), ('e2e', render_rich(st)))
             res.count('end to end: ' + st[0])
-        for l in CORPUS_ARGS + [gen_args(rng, e2e=True) for _ in range(n_e2e)]:
+        arg_lists = [(l, None) for l in CORPUS_ARGS] + CORPUS_ARGS_UT + [(gen_args(rng, e2e=True), None) for _ in range(n_e2e)]
+        for j, (l, ut) in enumerate(arg_lists):
             if any(i[0] != 'tok' for i in l[0]) or l[1] is not None or l[2] is not None:
                 l = ([i for i in l[0] if i[0] == 'tok'], None, None)
-            add(args_e2e_case(e2e, l), ('args-e2e', render_list(l)))
+            if j >= len(CORPUS_ARGS) + len(CORPUS_ARGS_UT) and rng.chance(0.12):
+                l, ut = with_unterm(rng, l, 1.0)
+                ut = (ut[0], ut[1], ut[2].replace('\n', ' ').replace('\r', ' '))
+                if '\n' in render_unterm(ut) or '\r' in render_unterm(ut) or '@[' in render_unterm(ut):
+                    ut = ([], "'", 'b c')
+            via_list = j % 3 == 2
+            add(args_e2e_case(e2e, l, ut, via_list), ('args-e2e', via_list, render_list(l) + render_unterm(ut)))
+            res.count('end to end: ' + ('def list + argv' if via_list else 'argv') + (' (unterminated quote)' if ut is not None else ''))
+        for j in range(len(CORPUS_DIR) + n_e2e // 2):
+            segs, ut = CORPUS_DIR[j] if j < len(CORPUS_DIR) else gen_dir(rng)
+            add(dir_e2e_case(e2e, segs, ut), ('dir-e2e', render_segs(segs) + render_unterm(ut)))
+            res.count('end to end: dir FILE-LIST' + (' (unterminated quote)' if ut is not None else ''))
     finally:
         shutil.rmtree(root, ignore_errors=True)
 
